@@ -14,7 +14,8 @@ Lemma ceval_ord e x y : cwf e = true ->
   ceval e x y = match x ?= y with Eq => ceval e 0 0 | Lt => ceval e 0 1 | Gt => ceval e 1 0 end.
 Proof.
   induction e as [k l r|e IH|]; intro W; simpl in W; try discriminate.
-  - destruct (Z.compare_spec x y) as [E|L|G]; destruct k, l, r; cbn; specs.
+  - destruct l, r; simpl in W; try discriminate;
+      destruct (Z.compare_spec x y) as [E|L|G]; destruct k; cbn; specs.
   - simpl. rewrite IH by auto. destruct (x ?= y); reflexivity.
 Qed.
 
@@ -39,7 +40,7 @@ Lemma cmp_model c : cmp_ok c = true ->
     ceval (c_eq c) (addr (handle_ptr s a)) (addr (handle_ptr s b)) = handle_eq s a b /\
     ceval (c_ne c) (addr (handle_ptr s a)) (addr (handle_ptr s b)) = handle_ne s a b /\
     ceval (c_lt c) (addr (handle_ptr s a)) (addr (handle_ptr s b)) = (addr (handle_ptr s a) <? addr (handle_ptr s b)) /\
-    a_bool c = true /\ a_arrow c = true /\ a_deref c = true.
+    a_bool c = true /\ a_arrow c = true /\ a_deref c = true /\ c_mixed c = true.
 Proof.
   intros H addr Inj s a b. destruct (cmp_sound c H (addr (handle_ptr s a)) (addr (handle_ptr s b))) as (E & N & L).
   assert (Q : (addr (handle_ptr s a) =? addr (handle_ptr s b)) = handle_eq s a b).
